@@ -1517,7 +1517,7 @@ def _labels_run(case):
 def _labels_req(case):
     cand = sorted(set(range(_gen()['seedStart'], _gen()['seedStart'] + len(case['file']) + 2)) | {case['cur']})
     tabs = ';'.join('%d=%s' % (sd, ','.join(str(int(x)) for x in _words(sd, 2 * case['pre'] + case['ncpu'] + 2))) for sd in cand)
-    return 'labels %d %s %d %d %d %s' % (_gen()['seedStart'], ilist(case['file']), case['cur'], 2 * case['pre'], case['ncpu'], tabs)
+    return 'labels %d %s %d %d %d %d %s' % (_gen()['seedStart'], ilist(case['file']), case['cur'], 2 * case['pre'], case['n'], case['ncpu'], tabs)
 
 
 def _labels_impl(case):
@@ -1566,7 +1566,8 @@ _BRANCHES = [
     'restartLoop:gives-up-maxrep', 'restartLoop:gives-up-maxrep-or-not-repeatable', 'clipOne:at-lower', 'clipOne:at-upper',
     'clipOne:inside', 'construct:REJ:type', 'construct:REJ:value', 'construct:accepted', 'getNcpu:local', 'getNcpu:config',
     'getNcpu:default', 'getNcpu:raises', 'extendFile:returns', 'extendFile:raises-index', 'extendFile:raises-runtime',
-    'extendFile:reseeds', 'extendFile:keeps-seed', 'gridOf:scalar', 'gridOf:r2', 'gridOf:r3', 'gridOf:array', 'extendLabels:reseeded', 'extendLabels:continues-at-position',
+    'extendFile:reseeds', 'extendFile:keeps-seed', 'tstep:set-intervals', 'tstep:draw-long-lived-service', 'tstep:draw-new-service',
+    'drawWin:no-window', 'drawWin:window', 'drawWin:one-sided-window', 'gridOf:scalar', 'gridOf:r2', 'gridOf:r3', 'gridOf:array', 'extendLabels:reseeded', 'extendLabels:continues-at-position',
     'extendLabels:one-process', 'extendLabels:several-processes', 'extendMany:history', 'extendShared:history',
 ]
 # branches of the model that no valid input reaches, with the theorem that says so
@@ -1695,7 +1696,95 @@ def _extfile_compare(case, impl, model, count=None):
     return None
 
 
+def _th_plan(case):
+    """model steps for a time history: long-lived services are refs 0..k-1, every per-step service is the scratch
+    ref k reseeded just before its draw (= a new RandomStateService(seed))"""
+    names = sorted({st['svc'] for st in case['steps'] if st.get('svc')})
+    first = {}
+    for st in case['steps']:
+        if st.get('svc') and st['svc'] not in first:
+            first[st['svc']] = st['seed']
+    ref = {nm: i for i, nm in enumerate(names)}
+    scratch = len(names)
+    ops, consumed = [], {}
+    for st in case['steps']:
+        if 'set_ivs' in st:
+            ops.append('s,' + ';'.join(f2b(x) for iv in st['set_ivs'] for x in iv))
+            continue
+        win = st.get('win')
+        a = 'n' if not win or win[0] is None else f2b(win[0])
+        b = 'n' if not win or win[1] is None else f2b(win[1])
+        if st.get('svc'):
+            r = ref[st['svc']]
+            consumed[first[st['svc']]] = consumed.get(first[st['svc']], 0) + st['size']
+        else:
+            r = scratch
+            ops.append('r,%d,%d' % (scratch, st['seed']))
+            consumed[st['seed']] = max(consumed.get(st['seed'], 0), st['size'])
+        ops.append('d,%d,%s,%s,%d' % (r, a, b, st['size']))
+    svcs = ','.join('%d:0' % first[nm] for nm in names) + (',' if names else '') + '0:0'
+    tabs = ';'.join('%d=%s' % (sd, ','.join(str(int(x)) for x in _words(sd, 2 * k + 4))) for sd, k in consumed.items())
+    return names, first, ops, svcs, tabs
+
+
+def _timehist_req(case):
+    names, first, ops, svcs, tabs = _th_plan(case)
+    return 'timehist %s %s %s %s' % (flist([x for iv in case['ivs'] for x in iv]), svcs, '/'.join(ops), tabs or '-')
+
+
+def _timehist_impl(case):
+    """the history on ONE Livetime + ONE TimeGenerator with real services; times of every draw step"""
+    from skyllh.core.random import RandomStateService
+    lay = case.get('layout')
+    lt, tg = _mk_time_objs(case['ivs'], lay)
+    svcs, out = {}, []
+    for st in case['steps']:
+        if 'set_ivs' in st:
+            lt.uptime_mjd_intervals_arr = _ivs_array(st['set_ivs'], lay)
+            continue
+        win = st.get('win')
+        kw = {} if win is None else {'t_min': win[0], 't_max': win[1]}
+        if st.get('svc'):
+            rss = svcs.setdefault(st['svc'], RandomStateService(st['seed']))
+        else:
+            rss = RandomStateService(st['seed'])
+        try:
+            t = (lt.draw_ontimes if st.get('via') == 'lt' else tg.generate_times)(rss=rss, size=st['size'], **kw)
+            out.append(flist(np.asarray(t, dtype=np.float64)))
+        except MachineryError:
+            raise
+        except Exception:  # noqa
+            out.append('ERR')
+    return '/'.join(out), svcs
+
+
+def _timehist_compare(case, impl, model, count=None):
+    times, svcs = impl
+    parts = dict(x.split(':', 1) for x in model.split(' '))
+    if count:
+        for st in case['steps']:
+            if 'set_ivs' in st:
+                count('branch:tstep:set-intervals')
+            else:
+                w = st.get('win')
+                count('branch:drawWin:' + ('no-window' if w is None else 'window' if None not in w else 'one-sided-window'))
+                count('branch:tstep:draw-' + ('long-lived-service' if st.get('svc') else 'new-service'))
+    if times != parts['times']:
+        a, b = times.split('/'), parts['times'].split('/')
+        k = [i for i in range(max(len(a), len(b))) if (a[i:i + 1] != b[i:i + 1])][0]
+        return ('draw number %d of the history %r on one Livetime/TimeGenerator (intervals %r): implementation %s, model %s'
+                % (k, case['steps'], case['ivs'], (a[k:k + 1] or ['-'])[0][:120], (b[k:k + 1] or ['-'])[0][:120]))
+    names, first, _, _, _ = _th_plan(case)
+    fin = parts['svcs'].split(',')
+    for i, nm in enumerate(names):
+        sd, p = fin[i].split(':')
+        if not _same_state(svcs[nm].random.get_state(), _state_at(int(sd), int(p))):
+            return 'service %s after the history: model says seed %s at word %s, the implementation is elsewhere' % (nm, sd, p)
+    return None
+
+
 _NEW = {
+    'timehist': (_timehist_req, _timehist_impl, _timehist_compare),
     'extfile': (_extfile_req, _extfile_impl, _extfile_compare),
     'trialsE': (_trialsE_req, _trialsE_impl, _trialsE_compare),
     'cobj': (_cobj_req, _cobj_impl, _cobj_compare),
@@ -1895,6 +1984,15 @@ def run(ctx):  # noqa: C901
                         'choice oracle: the cumulative bracket is checked up to sum*1e-12*n (exact fractions, n <= 4000) or sum*1e-9 (float '
                         'prefix sums, n > 4000): a one-off index error between two items lighter than that is not seen',
                         'how many deviates a call consumes and that worker seeds are the raw next words are diagnostics, not verdicts',
+                        'hypotheses left in the theorems that the code does not establish: uniform deviates lie in [0,1) (numpy contract of '
+                        'random()/uniform()); an explicitly passed minimiser service is another object than the data service; parameter bounds '
+                        'satisfy lo <= hi; grid steps are positive; a trial file has fewer than 2^32 rows; services are seeded (rss.seed is an '
+                        'int: with seed=None do_trial raises TypeError when it records the seed); one process for the statement that all '
+                        'appended labels are new (false for several: open finding)',
+                        'hypotheses discharged by theorems about the code-shaped model: non-negative weights / positive sum / matching lengths '
+                        '(c08_validate_establishes_guard, c08_choice_object_correct), at least one row per extension (c08_extend_file_fresh), '
+                        'transparent cache of the time service (c08_time_code_transparent)',
+                        'the error paths of several processes (a worker that raises) belong to C09 and are not modelled here',
                         'trial-file seeds are the seeds of the generating services (non-negative integers)']
     cases, oracle_cases = [], []
     seeds0 = [0, 1, 2, 3, 7, 42, 12345, 2 ** 31, 2 ** 32 - 1]
@@ -2136,7 +2234,7 @@ def run(ctx):  # noqa: C901
     for j in range(ctx.n(6, 60)):
         file = sorted(set(rng.randrange(0, 6) for _ in range(rng.randrange(1, 5))))
         cases.append({'kind': 'labels', 'cfg': _gen_cfg(rng), 'file': file, 'cur': rng.choice(file) if j % 3 else rng.randrange(6, 9),
-                      'pre': rng.choice([0, 2]), 'n': rng.choice([2, 3]), 'ncpu': [1, 2, 2, 3][j % 4]})
+                      'pre': rng.choice([0, 2]), 'n': rng.choice([1, 2, 3]), 'ncpu': [1, 2, 2, 3][j % 4]})
 
     # ---- fresh-vs-used histories on one object
     for j in range(ctx.n(40, 600)):
@@ -2148,6 +2246,7 @@ def run(ctx):  # noqa: C901
         lay = [None, 'F', 'strided', 'readonly'][j % 4]
         ctx.count('time_history:layout=%s' % lay)
         oracle_cases.append(('time_history', {'ivs': ivs, 'steps': steps, 'layout': lay}))
+        cases.append({'kind': 'timehist', 'ivs': ivs, 'steps': steps, 'layout': lay})
         ctx.count('time_history:len=%d' % len(steps))
     for j in range(ctx.n(20, 300)):
         n = rng.choice([1, 2, 3, 5, 10, 100, 1000])
@@ -2284,6 +2383,8 @@ def _oracle_cases_for(c):
         return [('extend_labels', {x: v for x, v in c.items() if x != 'kind'})]
     if k in ('ncpu', 'extfile'):
         return []
+    if k == 'timehist':
+        return [('time_history', {x: v for x, v in c.items() if x != 'kind'})]
     if k == 'hist':
         return [('seed_history', {'file': c['file'], 'curs': c['curs'], 'rows': c['rows']})]
     if k == 'histshared':
@@ -2300,25 +2401,26 @@ def _oracle_cases_for(c):
 
 
 MANIFEST = dict(
-    text=('Lean theorems on a model of skyllh\'s random handling in which services are references into a store (aliasing expressible, '
-          'fork = copy): for a minimiser service that is not the data service — what do_trial establishes by constructing a new one — the '
-          'data side of do_trials (recorded seeds, pseudo data of master and workers, worker seeds, state of the data service) is independent '
-          'of the minimiser and of the minimiser service (c08_noninterference), with a machine-checked counterexample for minimizer_rss is '
-          'rss; the default minimiser stream is fresh in every trial; rows after (re)seeding do not depend on any earlier history, also with '
-          'an explicit minimiser service; do_trials raises exactly for n = 0 / ncpu < 1. RandomChoice as coded (argsort, sorted search, '
-          'scatter, items[idxs]) equals one inverse-CDF look-up per deviate, returns the requested number of ITEMS, never raises and never '
-          'returns an item of zero probability — over ordered fields and, without field axioms, over any linear order with a+0=a given a '
-          'sorted cdf (premise checked on the float cdf of every case). The repaired unused-seed search returns the least seed not in the '
-          'file, also along histories with new or one reused service; counterexample for the pinned search. The executable model is compared '
-          'exactly with RandomChoice (non-identity item arrays), extend_trial_data_file (all subsets of {0..6}) and a real LLHRatioAnalysis '
-          'run through do_trial/do_trials/parallelize/llhratio.maximize/Minimizer (also aliased and raising calls).'),
-    note=('numpy.random.RandomState is a parameter of the model (a function of seed and position; its Gaussian cache is not modelled): '
-          'determinism and bit-identity are numpy\'s and enter through word tables in the correspondence and through two-run comparisons of '
-          'the full generator state. Background/signal generators are an arbitrary function of the stream (stubs in the harness). The '
-          'c08_time_* theorems are conditional: they assume the cache of the Livetime/TimeGenerator object is transparent; for the real '
-          'objects that premise is only tested (fresh-vs-used histories), not proved. Choice theorems are about exact or order-level '
-          'arithmetic; float64/float32 behaviour is compared. rss.seed=None, minimiser non-convergence and RandomChoice argument '
-          'validation are not modelled.'),
+    text=('Lean theorems (76, no sorry) on a model of skyllh\'s random handling in which services are references into a store: '
+          'non-interference of the minimiser with the data side of do_trials for master and workers (with the aliasing counterexample), '
+          'fresh default minimiser stream, independence of rows from earlier histories, do_trials/get_ncpu error paths; Minimizer.minimize as '
+          'coded (restart loop, stopping reasons, ValueError, words read also when it raises, clipping, restart initials in bounds) and trials '
+          'that may raise with their post-state: the data of the completed trials is an initial segment of the pure data trace whatever the '
+          'minimiser does; RandomChoice as an object: the validation establishes the guard (non-negative, positive sum, lengths), so a '
+          'constructed object never raises, returns the requested number of ITEMS and never one of zero probability (ordered fields; '
+          'order-level version for floats; NaN: counterexample for the pinned sum test, theorem for the repaired one); unused-seed search, '
+          'histories of extensions with new or one reused service, create/extend_trial_data_file with grids of signal strengths as the '
+          'code builds the file (row count, labels, errors), labels with several processes (statement false: counterexample + partial); '
+          'Livetime/TimeGenerator draws code-shaped (C14\'s drawWin) with an unconditional used-object = fresh-object theorem. Every '
+          'definition is executed by the driver and compared exactly with the real code on every run (RandomChoice incl. argument forms, '
+          'dtypes, memory layouts; extend_trial_data_file on all subsets of {0..6}; a real LLHRatioAnalysis through do_trial/do_trials/'
+          'parallelize/llhratio.maximize/Minimizer incl. raising trials; time histories on one object); branch counters list untied branches.'),
+    note=('numpy.random.RandomState is a parameter of the model (a function of seed and position; its Gaussian cache and seed=None are '
+          'numpy\'s and not modelled): determinism and bit-identity enter through word tables and two-run comparisons of the full generator '
+          'state. Background/signal generators are an arbitrary function of the stream (stubs in the harness). Choice theorems are about '
+          'exact or order-level arithmetic; float64/float32/float16 behaviour is compared. Raising workers (several processes) are C09\'s. '
+          'Open finding: with several processes the worker seeds written into an extended file are not compared with the file.'),
     design='DESIGN.md section 4 C08',
-    technique='Lean 4 proof (induction over trial sequences and operation histories on a store of references, prefix sums over ordered '
-              'fields and linear orders, pigeonhole) + exact model/implementation correspondence + fresh-vs-used and two-run oracles')
+    technique='Lean 4 proof (induction over trial sequences, grids and operation histories on a store of references, loop invariants, prefix '
+              'sums over ordered fields and linear orders, pigeonhole, a toy NaN arithmetic) + exact model/implementation correspondence with '
+              'branch counters + fresh-vs-used and two-run oracles')
